@@ -4,7 +4,8 @@
    capacity at every point).  The end-to-end oracle evaluates the SAME `feasible` on the tours of the solutions the real
    solver returns (tools/props/c01.py); skills, limits and the other static rules are checked there only. *)
 From VRP Require Import Base.Tac Model.Core Spec.Feasible Proofs.CoreTimeP Proofs.CoreEvalP Proofs.CoreRemoveP.
-From VRP Require Import Spec.Intervals Proofs.IntervalsP Spec.Valid Proofs.ValidP Proofs.ReachP.
+From VRP Require Import Spec.Intervals Proofs.IntervalsP Spec.Valid Proofs.ValidP Proofs.ReachP Spec.ValidTD Proofs.ValidTDP.
+From VRP Require Import Spec.Relations Proofs.RelationsP.
 
 (* every insertion the evaluator accepts keeps the tour feasible: any matrix, open/closed tours, static and dynamic demand *)
 Theorem C01_accepted_insertion_feasible : forall dur v t idx target,
@@ -74,6 +75,51 @@ Theorem C01_task_order_checker_sound_complete : forall P S,
   order_viols P S = [] <->
   forall n t r, nth_error (sl_tours S) n = Some t -> rebuild (order_problem P) t = Some r -> Sorted (order_seq r).
 Proof. exact order_viols_nil. Qed.
+
+(* optional breaks, placement: nothing is reported iff every break activity uses a place of a break defined for the tour's
+   vehicle shift - the place's duration and the break's time (relative to the tour's departure for an offset break) explain
+   the reported interval - at that place's location or, for a place without location, where the previous activity of the
+   tour took place.  (The break's time window itself is part of the rebuilt activity list: FInfeasible / `feasible`.) *)
+Theorem C01_break_placement_checker_sound_complete : forall P S,
+  break_place_viols P S = [] <-> forall t, In t (sl_tours S) -> BreaksPlaced P t.
+Proof. exact break_place_viols_nil. Qed.
+
+(* non-vacuity: a tour that takes its location-less offset break at the customer it just served is accepted by the whole
+   checker; the same break taken at another location is reported *)
+Theorem C01_break_examples :
+  valid_b ex_Pb ex_Sb = [] /\ In (FBreakPlace 0 2) (valid_b ex_Pb ex_Sb_bad).
+Proof. exact ex_break. Qed.
+
+(* relation pinning (Spec/Relations.v): nothing is reported iff for every relation of the plan
+   - vehicle: no tour of another vehicle shift serves one of its jobs, and (sequence / strict) its own tour serves all of them;
+   - order (sequence / strict): what its tour serves of its jobs is exactly the listed sequence (a job with several tasks is
+     listed once per task);
+   - contiguity (strict): the listed sequence is a contiguous block of everything the tour serves (jobs, breaks, reloads);
+   - anchoring (strict): with `departure` first the block opens the tour, with `arrival` last it closes it *)
+Theorem C01_relation_pinning_checker_sound_complete : forall rels S,
+  rel_viols rels S = [] <-> forall r, In r rels -> RelPinned S r.
+Proof. exact rel_viols_nil. Qed.
+
+Theorem C01_relation_examples :
+  rel_viols [mkPRel 2 1 0%nat [REL_DEPARTURE; 1; REL_ARRIVAL]] ex_S = []
+  /\ rel_viols [mkPRel 0 2 0%nat [1]] ex_S = [FRelVehicle 0]
+  /\ rel_viols [mkPRel 1 1 0%nat [2; 1]] ex_S = [FRelVehicle 0; FRelOrder 0].
+Proof. exact ex_rel. Qed.
+
+(* general routing data (several profiles, profile scale, time-dependent matrices; Spec/ValidTD.v over the provider model of
+   C16): the end-to-end checker then evaluates every leg at its departure time (`time_feasible_td`, limits on `tour_dist_td` /
+   `replay_duration_td`).  With routing that ignores the departure it IS `Feasible.time_feasible` / the distance and duration the
+   limits are checked with above; without such data the plugins evaluate Valid.feasible_viols itself *)
+Theorem C01_td_time_feasible_conservative : forall (dur : Z -> Z -> Z) (t : list act),
+  time_feasible_td (cst dur) t = time_feasible dur t.
+Proof. exact time_feasible_td_const. Qed.
+
+Theorem C01_td_limits_conservative : forall (dur dist : Z -> Z -> Z) (t : list act),
+  tour_dist_td (cst dur) (cst dist) t = tour_legs dist t /\ replay_duration_td (cst dur) t = replay_duration dur t.
+Proof. exact (fun dur dist t => conj (tour_dist_td_const dur dist t) (replay_duration_td_const dur t)). Qed.
+
+Theorem C01_no_general_routing_is_feasible_viols : forall P S, feasible_viols_x None P S = feasible_viols P S.
+Proof. exact feasible_viols_x_none. Qed.
 
 (* reachability, step level: an insertion that passed the gate of ReachableConstraint (prev -> target, target -> next) keeps
    every leg reachable ... *)
